@@ -3700,7 +3700,24 @@ pub fn lift_fn(ctx: &mut Ctx, blk: &Block) -> Result<(String, Value), String> {
             k -= 1;
         }
         let tail_blk = syn::Block { brace_token: Default::default(), stmts: stmts.clone() };
-        let used = Lifter::idents_of(&tail_blk);
+        // variables the tail reads: single-identifier paths (field and method names are not variables); macro arguments
+        // are token soup, every identifier in them counts
+        let used: Vec<String> = {
+            struct VarsT(Vec<String>);
+            impl<'ast> syn::visit::Visit<'ast> for VarsT {
+                fn visit_expr_path(&mut self, p: &'ast syn::ExprPath) {
+                    if let Some(i) = p.path.get_ident() {
+                        self.0.push(i.to_string());
+                    }
+                }
+                fn visit_macro(&mut self, m: &'ast syn::Macro) {
+                    self.0.extend(Lifter::idents_of(&m.tokens));
+                }
+            }
+            let mut v = VarsT(vec![]);
+            syn::visit::Visit::visit_block(&mut v, &tail_blk);
+            v.0
+        };
         let mut own: Vec<String> = Vec::new();
         {
             struct PB<'z>(&'z mut Vec<String>);
